@@ -20,6 +20,13 @@ REPO = "/repo"
 
 # (property, relative file, old text, new text, substring of the unit expected to fail)
 MUTANTS = [
+    ("C24", "unified_planning/model/transition.py",
+     "        up.model.effect.check_conflicting_effects(\n            effect,\n            None,\n            self._simulated_effect,",
+     "        self._effects.append(effect)\n        up.model.effect.check_conflicting_effects(\n            effect,\n            None,\n            self._simulated_effect,", "_add_effect_instance"),
+    ("C24", "unified_planning/model/mixins/timed_conds_effs.py",
+     "            self._fluents_inc_dec.get(timing, set()),\n", "            set(),\n", "set_simulated_effect"),
+    ("C24", "unified_planning/model/problem.py",
+     "        self._timed_effects.setdefault(timing, []).append(effect)\n", "        self._timed_effects.setdefault(GlobalStartTiming(), []).append(effect)\n", "Problem._add_effect_instance"),
     ("C14", "unified_planning/model/walkers/substituter.py",
      "        IdentityDagWalker.__init__(self, environment, True)\n", "        IdentityDagWalker.__init__(self, environment)\n", "substitute"),
     ("C14", "unified_planning/model/walkers/quantifier_simplifier.py",
